@@ -10,6 +10,7 @@ func C07(o *world.Obs) *Result {
 	r := NewResult()
 	type inval struct {
 		seq    int64 // sequence number at which the unsafe exchange ended
+		start  int64 // ... and started
 		nf     string
 		uri    string
 		via    string
@@ -36,7 +37,7 @@ func C07(o *world.Obs) *Result {
 		if !ok {
 			continue
 		}
-		invs = append(invs, inval{ex.EndSeq, nf, ex.Req.URL, "target", ex.Req.Method, ex.Idx})
+		invs = append(invs, inval{ex.EndSeq, ex.StartSeq, nf, ex.Req.URL, "target", ex.Req.Method, ex.Idx})
 		for _, c := range o.FgCalls(ex) {
 			if c.Kind != "resp" {
 				continue
@@ -57,7 +58,7 @@ func C07(o *world.Obs) *Result {
 				}
 				if o1 == o2 {
 					if lnf, ok := model.NF(abs, false); ok {
-						invs = append(invs, inval{ex.EndSeq, lnf, abs, k, ex.Req.Method, ex.Idx})
+						invs = append(invs, inval{ex.EndSeq, ex.StartSeq, lnf, abs, k, ex.Req.Method, ex.Idx})
 					}
 				}
 			}
@@ -77,7 +78,13 @@ func C07(o *world.Obs) *Result {
 			continue
 		}
 		for _, iv := range invs {
-			if iv.nf == nf && iv.seq < ex.StartSeq && src.EndSeq < iv.seq {
+			// judged: replies obtained by exchanges that were over before the unsafe exchange began
+			// (an entry stored by a GET racing with the invalidation is not judged, DESIGN §3.21)
+			srcDone := src.EndSeq
+			if src.Ex >= 0 && src.Ex < len(o.Exchanges) && o.Exchanges[src.Ex].EndSeq > srcDone {
+				srcDone = o.Exchanges[src.Ex].EndSeq
+			}
+			if iv.nf == nf && iv.seq < ex.StartSeq && srcDone < iv.start {
 				r.Fail("C07", "not-invalidated:"+iv.via+":"+methodClass(iv.method), ex.Idx,
 					"reply s%d stored before the successful %s (exchange #%d, invalidating %s via %s) is returned without validation; %s",
 					src.Serial, iv.method, iv.ex, iv.uri, iv.via, SummarizeExchange(o, ex))
